@@ -45,7 +45,8 @@ def concretise(tok, rnd: random.Random, plain=False):
     for s in tok["text"]:
         if s == "A":
             v = tok["val"][ai] if ai < len(tok["val"]) else 1
-            el = "C" if plain else rnd.choice(BY_VAL[min(v, 4)])
+            # ring atoms stay carbon: small hetero rings (O1NN1) are perceived as aromatic by RDKit in one writing and not in another
+            el = "C" if (plain or "R" in tok["text"]) else rnd.choice(BY_VAL[min(v, 4)])
             atoms.append(el)
             cur += el
             ai += 1
